@@ -1108,8 +1108,10 @@ func TestVerifC15(t *testing.T) { vtMain(t, "C15", vtC15Gen, vtC15Exec) }
 // and, rarely, stale or fabricated events. ----
 
 // vtC15FieldsEq: ValidUpdateQuota returns early (nothing is checked) when these fields agree
+// (and, since the repair of findings/C15-unchecked-flag-drop.md, the two exempting labels)
 func vtC15FieldsEq(a, b vtC15Payload) bool {
-	if a.plabel != b.plabel || a.isParent != b.isParent || a.tree != b.tree || a.nsBad != b.nsBad {
+	if a.plabel != b.plabel || a.isParent != b.isParent || a.tree != b.tree || a.nsBad != b.nsBad ||
+		a.force != b.force || a.treeRoot != b.treeRoot {
 		return false
 	}
 	if !a.nsBad && fmt.Sprint(a.ns) != fmt.Sprint(b.ns) {
@@ -1135,11 +1137,9 @@ func vtC15InfGen(r *rand.Rand, i int) (string, []int64) {
 	g := &vtC15GenState{r: r, qt: NewQuotaTopology(nil), store: map[int64]vtC15Payload{}}
 	peer := NewQuotaTopology(nil) // a second replica, in step with the API server's content
 	g.style = []string{"small", "small", "deep", "siblings", "siblings", "large"}[r.Intn(6)]
-	mode := []string{"echo", "echo", "peers", "peers", "mixed", "unruly"}[r.Intn(6)]
-	flagDrop := os.Getenv("VERIF_C15_FLAGDROP") == "1"
-	if flagDrop && r.Intn(3) == 0 {
-		mode = "flagdrop" // steer towards the shape of findings/C15-unchecked-flag-drop.md
-	}
+	// mode "flagdrop" steers towards the shape of findings/C15-unchecked-flag-drop.md: children
+	// admitted only under allow-force-update, then updates that remove nothing but the label
+	mode := []string{"echo", "echo", "peers", "peers", "mixed", "unruly", "flagdrop"}[r.Intn(7)]
 	nops := 4 + r.Intn(14)
 	gates := int64(0)
 	if r.Intn(4) == 0 {
@@ -1180,11 +1180,6 @@ func vtC15InfGen(r *rand.Rand, i int) (string, []int64) {
 				op.newP = vtC15CopyPayload(op.oldP)
 				op.newP.force, op.newP.treeRoot = false, false
 			}
-		}
-		if op.kind == 1 && !flagDrop && vtC15FieldsEq(op.oldP, op.newP) {
-			// an update that is admitted unchecked: keep the allow-force-update / is-root labels
-			// (findings/C15-unchecked-flag-drop.md; VERIF_C15_FLAGDROP=1 generates the shape)
-			op.newP.force, op.newP.treeRoot = op.oldP.force, op.oldP.treeRoot
 		}
 		return op
 	}
